@@ -171,6 +171,24 @@ def run(ctx):
             expect_fail("sizer.%s = %r (a valid value with white space around it) in gitconfig" % (k, v), config=[("sizer." + k, v)], args=[])
             expect_fail("--%s=%r" % (k, v), args=["--%s=%s" % (k, v)])
         expect_fail("invalid sizer.jsonVersion in gitconfig", config=[("sizer.jsonVersion", "9")], args=["--json"])
+        # a listing cut INSIDE a line that is longer than any fixed buffer (a 6000-byte path): the run ends, with a failure
+        for cut in (4200, 5000, 6041, 6100, 12000):
+            flt = {"invocation": "rev-list", "nth": 0, "after_bytes": cut, "exit": 137, "signal": "KILL"}
+            rc, out, err, log = eng.run_fake(sc, order, ["--json"], [("HEAD", roots[1])], config=cfg, faults=[flt],
+                                             extra={"rev_paths": True, "rev_path_len": 6000}, extra_args=[], timeout=30)
+            res.case(("long-line-cut", cut), True)
+            if rc == "timeout":
+                res.violations.append(vlib.Violation("run did not terminate when git rev-list died %d bytes into a listing with 6000-byte paths (hang)" % cut,
+                                                     {"fault": flt, "rev_path_len": 6000}))
+            elif rc == 0 or out:
+                res.violations.append(vlib.Violation("a listing cut inside a long line was not reported as a failure", {"fault": flt, "rev_path_len": 6000},
+                                                     expected="non-zero exit, empty stdout", observed={"rc": rc, "stdout": out[:200].decode("latin1")}))
+        # ... and a complete listing with such paths is fine
+        rc, out, err, log = eng.run_fake(sc, order, ["--json"], [("HEAD", roots[1])], config=cfg, extra={"rev_paths": True, "rev_path_len": 6000}, extra_args=[], timeout=60)
+        res.case(("long-lines-complete",), True)
+        if rc != 0 or out != base[("--json",)]:
+            res.violations.append(vlib.Violation("a complete listing with 6000-byte paths changes the report", {"rev_path_len": 6000},
+                                                 expected=base[("--json",)][:200].decode("latin1"), observed={"rc": rc, "stdout": out[:200].decode("latin1")}))
         # a report that cannot be written is not a report: stdout on a full device or closed for writing -> non-zero status and
         # a message, in every format ("exits with status 0 only after writing a complete report")
         import subprocess as _sp
